@@ -24,13 +24,15 @@ from . import gen_c1419 as G
 
 class GenSpec:
     def __init__(self, mod, name, ints=None, switches=(), fixed=None, topo=None, counts=None, self_obj=None, polyline=None,
-                 assoc=False, samples=False, cells=False, want_faces=True, admit=None, edge_rows=False):
+                 assoc=False, samples=False, cells=False, want_faces=True, admit=None, edge_rows=False, stubs=None, float_defaults=False):
         self.mod, self.name = mod, name
         self.ints = dict(ints or {})
         self.switches = list(switches)
         self.fixed = dict(fixed or {})
         self.topo, self.counts, self.self_obj, self.polyline = topo, counts, self_obj, polyline
         self.assoc, self.samples, self.cells, self.want_faces = assoc, samples, cells, want_faces
+        self.stubs = stubs or {}     # name -> FunctionDef standing for a package function (an abstraction of its result)
+        self.float_defaults = float_defaults     # keep literal float defaults (a generator of literal points whose scale has a default)
         self.admit = admit            # predicate on the parameter assignment (non rectangular admissible domains)
         self.edge_rows = edge_rows    # the two ends of an edge are computed from the same rows of the input arrays
 
@@ -54,6 +56,8 @@ def _opaque_defaults(fn, spec):
         if p in spec.ints or p in spec.switches or p in spec.fixed:
             continue
         d = defaults.get(p)
+        if spec.float_defaults and isinstance(d, ast.Constant) and isinstance(d.value, float):
+            continue
         if d is None or (isinstance(d, ast.Constant) and isinstance(d.value, float)) or isinstance(d, (ast.Call, ast.BinOp, ast.UnaryOp, ast.Attribute)):
             out[p] = X.Opaque(p)
     return out
@@ -65,7 +69,7 @@ def evaluate(ctx, spec):
     switches = [s for s in spec.switches if s in formal]
     fixed = dict(_opaque_defaults(fn, spec))
     fixed.update(spec.fixed)
-    runs = X.explore(ctx.repo, spec.mod, fn, spec.ints, switches, fixed, self_obj=spec.self_obj, admit=spec.admit)
+    runs = X.explore(ctx.repo, spec.mod, fn, spec.ints, switches, fixed, self_obj=spec.self_obj, admit=spec.admit, stubs=spec.stubs)
     return fn, runs
 
 
